@@ -342,10 +342,15 @@ func genB(t *rapid.T) CaseB {
 	}
 	n := rapid.IntRange(1, 14).Draw(t, "nops")
 	c.H.Ops = append(c.H.Ops, genOps(t, n, len(c.H.Agents), false)...)
-	c.KillOp = rapid.IntRange(0, len(c.H.Ops)-1).Draw(t, "kill_op")
+	// mostly aim at the operations after the initial registrations
+	if rapid.IntRange(0, 4).Draw(t, "kill_anywhere") == 0 {
+		c.KillOp = rapid.IntRange(0, len(c.H.Ops)-1).Draw(t, "kill_op")
+	} else {
+		c.KillOp = len(c.H.Ops) - 1 - rapid.IntRange(0, n-1).Draw(t, "kill_op_from_end")
+	}
 	c.During = rapid.IntRange(0, 3).Draw(t, "during") != 0
 	if c.During {
-		c.DelayUS = rapid.OneOf(rapid.IntRange(0, 300), rapid.IntRange(0, 4000), rapid.IntRange(0, 20000)).Draw(t, "delay_us")
+		c.DelayUS = rapid.OneOf(rapid.IntRange(0, 300), rapid.IntRange(0, 6000), rapid.IntRange(3000, 15000)).Draw(t, "delay_us")
 	}
 	return c
 }
